@@ -530,6 +530,40 @@ func runC16(c *Ctx) {
 		}
 	}
 
+	// ---- R5b restart recovery threads the state root through its rollback loop: each
+	// revert starts from the root the previous one produced, and the root compared with the
+	// engine's at the end is the one the last revert produced
+	if initFn := c.Anchor("pkg/framework.(*ABIHandler).Init"); initFn != nil {
+		n := 0
+		for _, s := range CallsIn(initFn, "(*framework.ABIHandler).revert") {
+			call, ok := s.Call.(*ssa.Call)
+			if !ok {
+				continue
+			}
+			n++
+			phi, isPhi := stripConv(ArgK(call, 2)).(*ssa.Phi)
+			carried := false
+			if isPhi {
+				for _, e := range phi.Edges {
+					if ex, ok := stripConv(e).(*ssa.Extract); ok && ex.Tuple == ssa.Value(call) && ex.Index == 0 {
+						carried = true
+					}
+				}
+			}
+			c.Require("C16.R5 recovery-threads-root", FuncKey(initFn)+" ⇒ revert(height, root, …)", p.InstrPos(call), "the root handed to revert is loop-carried: the result of the previous revert", carried, "root argument: "+T(ArgK(call, 2)).String())
+			if carried {
+				used := false
+				for _, r := range *phi.Referrers() {
+					if cl, ok := r.(*ssa.Call); ok && strings.HasSuffix(CalleeName(cl.Common()), "bytes.Equal") {
+						used = true
+					}
+				}
+				c.Require("C16.R5 recovery-threads-root", FuncKey(initFn)+": final comparison", p.InstrPos(call), "the root compared with the engine's last state root is the rolled-back one", used, "")
+			}
+		}
+		c.MinInstances("C16.R5 recovery-threads-root", n, 1)
+	}
+
 	// ---- R5 recovery typestate
 	{
 		seen := map[*ssa.Function]bool{}
